@@ -211,7 +211,14 @@ impl<'f, T: Elem> State<'f, T> {
             Op::SszEnc(a) => {
                 let c = src!(a);
                 let (bytes, len) = c.ssz();
-                format!("ok:{}|{}", hex_or_dot(&bytes), len)
+                let (fixed, fixed_len) = c.ssz_static();
+                format!(
+                    "ok:{}|{}|f={}:{}",
+                    hex_or_dot(&bytes),
+                    len,
+                    fixed as u8,
+                    fixed_len
+                )
             }
             Op::SerdeSer(a) => {
                 let c = src!(a);
